@@ -89,6 +89,11 @@ func (p c07) RunBatch(ctx *core.Ctx, batch int) {
 			p.checkTree(ctx, t.Clone(), ctx.Rand(fmt.Sprint("s", i)))
 		}
 	case batch == nEnum:
+		for _, t := range qt.RelationTrees() {
+			if len(qt.AndNodes(t)) > 0 {
+				p.checkTree(ctx, t.Clone(), ctx.Rand("relations"))
+			}
+		}
 		for _, pair := range c07Named {
 			pair := pair
 			ctx.Case(pair[0], func() { c07Compare(ctx, "named", pair[0], pair[1], 1) })
@@ -173,6 +178,7 @@ func c07Long(ctx *core.Ctx) {
 	if ctx.Thorough() {
 		sizes = append(sizes, 3000, 4095, 4096, 4097, 8193)
 	}
+	sizes = gen.Sizes(sizes, 8, 5000)
 	for ui, u := range units {
 		for _, n := range sizes {
 			if ui > 1 && n > 1100 && n%2 == 0 && !ctx.Thorough() {
@@ -206,10 +212,18 @@ func c07Long(ctx *core.Ctx) {
 }
 
 func c07Compare(ctx *core.Ctx, style, j, e string, nJux int) {
+	c07CompareDF(ctx, style, j, e, nJux, "")
+	// a default field scopes the bare operands; juxtaposition must still mean AND
+	if ctx.Index()%2 == 0 {
+		c07CompareDF(ctx, style+"+default-field", j, e, nJux, "dfl")
+	}
+}
+
+func c07CompareDF(ctx *core.Ctx, style, j, e string, nJux int, df string) {
 	mon.ImplicitAnds = 0
-	je, jerr, ok1 := parse(ctx, j, "")
+	je, jerr, ok1 := parse(ctx, j, df)
 	injected := mon.ImplicitAnds
-	ee, eerr, ok2 := parse(ctx, e, "")
+	ee, eerr, ok2 := parse(ctx, e, df)
 	if !ok1 || !ok2 {
 		return
 	}
@@ -318,7 +332,7 @@ func (c07) Finish(res *core.Result, cov map[string]any) []string {
 	reasons := []string{}
 	cov["distinct_nontrivial"] = res.NDistinct("nontrivial")
 	cov["exhaustive"] = true
-	cov["rule"] = "every depth<=2 tree with at least one AND (exhaustive over the leaf alphabet), AND chains of 3-6 prefixed/suffixed operands next to OR/NOT, random deeper trees, and chains of 20…2049 (thorough 8193) operands of ten shapes with all / every other / a seeded subset of the gaps juxtaposed; for every subset (<= 2^6, sampled beyond) of the AND nodes that may be juxtaposed (left operand text not ending in a bare ~ or ^) the juxtaposed text and the all-explicit text must both fail or parse to DeepEqual trees; the ImplicitAnd hook must fire at least once per written juxtaposition. Non-trivial = distinct juxtaposed text with a juxtaposition whose left operand is not a bare term."
+	cov["rule"] = "every depth<=2 tree with at least one AND (exhaustive over the leaf alphabet), AND chains of 3-6 prefixed/suffixed operands next to OR/NOT, random deeper trees, and chains of 20…2049 (thorough 8193) operands of ten shapes with all / every other / a seeded subset of the gaps juxtaposed; for every subset (<= 2^6, sampled beyond) of the AND nodes that may be juxtaposed (left operand text not ending in a bare ~ or ^) the juxtaposed text and the all-explicit text must both fail or parse to DeepEqual trees, without and (every second pair) with a default field; the ImplicitAnd hook must fire at least once per written juxtaposition. Non-trivial = distinct juxtaposed text with a juxtaposition whose left operand is not a bare term."
 	cov["contexts_seen"] = res.NDistinct("contexts")
 	floor(res.Counters["long_chains"] >= 300, &reasons, "long chains %d", res.Counters["long_chains"])
 	floor(res.Counters["both_parse_equal"] >= 1000, &reasons, "agreeing pairs %d", res.Counters["both_parse_equal"])
